@@ -122,6 +122,28 @@ CLAIMS["C19"] = (
     "DESIGN.md section 5 C19",
 )
 
+CLAIMS["C01"] = (
+    "disjunctive path analysis of the receive-loop iteration (event pairing) + sentinel-edge walks; who-may-write sweep; abstract interpretation of the buffer primitives over a linear-expression domain (normalised-form comparison, no solver); sibling agreement of codec constants",
+    "Decides statically: every iteration of the plaintext receive loop is reset-read-return with nothing consumed/delivered, or "
+    "reset-read-consume-deliver back to the loop head, reads before the consume, the chunk appended once before the loop, and each read's "
+    "'bytes missing' sentinel leaves the function before its value is used (R1); buffer/length/cursor are written only by the frame-helper "
+    "classes (R2); per path, append keeps the tail and grows the length by len(data), consume drops exactly the cursor prefix, read returns "
+    "None exactly when N < P+k (strict) without side effect and otherwise buffer[P:P+k] with P advanced by k, the varint reader indexes only "
+    "below N and advances one byte at a time (R3); reader and writer varint constants agree (R4). Shape conditions without which reassembly "
+    "cannot be lossless; equality of delivered and sent sequences over all byte streams and segmentations is not decided.",
+    "DESIGN.md section 5 C01",
+)
+CLAIMS["C02"] = (
+    "disjunctive write counting; role classification of normalised append sequences (locals inlined); writer-vs-reader agreement of byte-role expressions; must/ordering dataflow for the nonce",
+    "Decides statically: one transport write per batch on every path (R1); plaintext frame layout zero byte, varint(len(payload)), "
+    "varint(type), payload with type and payload from the same packet, empty-separator join, minimal varint writer (R2); Noise inner and outer "
+    "header byte roles (big-endian type/length, marker 0x01, be16 ciphertext length) and their agreement with what the reader reconstructs "
+    "(R3); nonce used as is, incremented exactly once afterwards on every normal path, not on failure, single writer, one encrypt per packet, "
+    "PACK_NONCE layout (R4); each packet is (id of type(m), serialised m) over the caller's messages in order (R5). Byte-exact decodability "
+    "for all payload values is not decided.",
+    "DESIGN.md section 5 C02",
+)
+
 UNDER_CONSTRUCTION = "rule set not built yet in this round (see DESIGN.md section 5 for the planned static rules)"
 
 NOT_APPLICABLE = {}
